@@ -1,5 +1,6 @@
 #!/bin/bash
 # tools/seed_eval.sh <seeded-id> [checks...]   apply seeded/<id>/patch.diff to /repo, run the checks (default: all 20), revert.
+export VERIF_EVIDENCE_DIR=/verif/.scratch/evidence
 # prints which checks report a violation; never leaves /repo modified.
 id="$1"; shift
 cd /verif
